@@ -6,7 +6,10 @@ use std::ops::{Deref, DerefMut};
 use std::panic::{RefUnwindSafe, UnwindSafe};
 use std::sync::atomic::{fence, AtomicUsize, Ordering};
 use std::sync::Arc;
+#[cfg(not(kani))]
 use std::sync::{LockResult, TryLockError, TryLockResult};
+#[cfg(kani)]
+use crate::verif_shim::poison::{LockResult, TryLockError, TryLockResult};
 
 use super::blocking::SyncBlocker;
 use super::poison;
@@ -552,3 +555,7 @@ mod tests {
         assert_eq!(*g, 1);
     }
 }
+
+#[cfg(kani)]
+#[path = "/verif/harness/may/sync_mutex.rs"]
+mod verif_kani;
